@@ -6,6 +6,7 @@ import (
 	"github.com/dave/dst/decorator/resolver/goast"
 	"github.com/dave/dst/decorator/resolver/guess"
 	"go/token"
+	"io"
 	"reflect"
 	"strings"
 
@@ -60,7 +61,8 @@ func runC19(c *fw.Ctx) {
 					d.Append(pat[1:]...)
 					d.Prepend()
 					fail := func(rule, detail string) { c.Violate(rule, rule, id+": "+detail, "") }
-					c19Render(c, id, where, d, fail)
+					c19Render(c, id, where, false, d, fail)
+					c19Render(c, id, where, true, d, fail)
 				})
 			}
 		}
@@ -335,7 +337,7 @@ func c19History(c *fw.Ctx, id string, i int) {
 		c.Nontrivial(strings.Join(kinds, ","))
 	}
 	if i%10 == 0 {
-		c19Render(c, id, r.Intn(1000), d, fail)
+		c19Render(c, id, r.Intn(1000), r.Intn(3) == 0, d, fail)
 	}
 	if i < 40 {
 		c.Sample(map[string]interface{}{"case": id, "ops": kinds, "final": model})
@@ -360,7 +362,7 @@ var c19BreakPoints = map[string]bool{
 }
 
 // c19Render attaches the list to a decoration point of a parsed file and checks the printed comments.
-func c19Render(c *fw.Ctx, id string, where int, d dst.Decorations, fail func(rule, detail string)) {
+func c19Render(c *fw.Ctx, id string, where int, reused bool, d dst.Decorations, fail func(rule, detail string)) {
 	f, err := decorator.Parse("package p\n\nimport \"fmt\"\n\nvar v = 1\n\ntype T struct {\n\tF int\n}\n\nfunc f() {\n\ta = b\n\tg(x, y)\n\tswitch {\n\tcase a:\n\t}\n}\n")
 	if err != nil {
 		return
@@ -429,12 +431,26 @@ func c19Render(c *fw.Ctx, id string, where int, d dst.Decorations, fail func(rul
 	*t.at = d
 	point := t.name
 	var buf bytes.Buffer
+	// every other rendering goes through a file restorer that has already printed another file with
+	// decorations of its own
+	rst := decorator.NewRestorer()
+	target := f
 	if fi != nil {
-		if err := decorator.NewRestorerWithImports("example.com/self", guess.New()).Fprint(&buf, fi); err != nil {
-			fail("render-error", point+": "+err.Error())
+		rst = decorator.NewRestorerWithImports("example.com/self", guess.New())
+		target = fi
+	}
+	fr := rst.FileRestorer()
+	if reused {
+		warm, err := decorator.Parse("// warm-up: package\npackage w\n\n// warm-up: doc\nfunc w() { /* warm-up: body */ }\n")
+		if err != nil {
 			return
 		}
-	} else if err := decorator.Fprint(&buf, f); err != nil {
+		if err := fr.Fprint(io.Discard, warm); err != nil {
+			return
+		}
+		point += " [file restorer used before]"
+	}
+	if err := fr.Fprint(&buf, target); err != nil {
 		fail("render-error", point+": "+err.Error())
 		return
 	}
@@ -461,7 +477,7 @@ func c19Render(c *fw.Ctx, id string, where int, d dst.Decorations, fail func(rul
 	// starts on a later line than the comment before it ends
 	// (only at the points before / after a whole statement, spec, field or declaration: inside a
 	// construct go/printer lays tokens out itself and need not honour a recorded line break)
-	if !c19BreakPoints[point] {
+	if !c19BreakPoints[t.name] {
 		c.Count("rendered", 1)
 		c.Observe("render_points", point)
 		return
